@@ -19,8 +19,9 @@
 //     local    cluster id of the controller
 //     max      cluster.API.MaxItemsPerResponse
 //     remotes  ids in conn.remotes ("-" none); may contain the local id (a decoy that must never be used)
-//     opts     count/limit/offset/order/select/bypass/fwd[/xyz]   ("~" empty string, "-" nil list, lists joined by
-//              "+"; optional xyz = include_trash, include_old_versions, distinct as bits, default 000)
+//     opts     count/limit/offset/order/select/bypass/fwd[/xyz[/where+include+cluster_id]]   ("~" empty string, "-" nil
+//              list, lists joined by "+"; optional xyz = include_trash, include_old_versions, distinct as bits, default
+//              000; optional where ("key=value", one pair), include, cluster_id, "-" = not set)
 //     filters  "-" or attr~op~operand;...   operand: s:<str> | i:<e,..> ([]interface{}, "#n" = non-string) |
 //              t:<e,..> ([]string) | n:<int> (other type)
 //     world    "-" or uuid@ts,...            objects held by the backend whose id is the uuid's first 5 characters
@@ -34,7 +35,7 @@
 // Result line:
 //   ok <uuid,..|-> | <id>: <call> // <call> | <id>: ...      (backends in id order; "-" instead of the log when no call)
 //   err <status> | ...
-//   call = F=<filters> S=<select> W=<fwd> C=<count> L=<limit> O=<offset> R=<order> B=<bypass> X=<xyz> => E<status>|P<uuid,..|->
+//   call = F=<filters> S=<select> W=<fwd> C=<count> L=<limit> O=<offset> R=<order> B=<bypass> X=<xyz> Y=<where>+<include>+<cluster_id> => E<status>|P<uuid,..|->
 // A []string operand is printed sorted (its order comes from a Go map); non-string values print as "#" / "n:".
 package federation
 
@@ -180,8 +181,20 @@ func verifC20RenderReq(o arvados.ListOptions) string {
 		}
 		return "0"
 	}
-	return fmt.Sprintf("F=%s S=%s W=%s C=%s L=%d O=%d R=%s B=%s X=%s%s%s", verifC20Join(fs, ";"), sel, verifC20Str(o.ForwardedFor),
-		verifC20Str(o.Count), o.Limit, o.Offset, verifC20Join(o.Order, "+"), b, bit(o.IncludeTrash), bit(o.IncludeOldVersions), bit(o.Distinct))
+	dash := func(s string) string {
+		if s == "" {
+			return "-"
+		}
+		return s
+	}
+	var wh []string
+	for k, v := range o.Where {
+		wh = append(wh, fmt.Sprintf("%s=%v", k, v))
+	}
+	sort.Strings(wh)
+	return fmt.Sprintf("F=%s S=%s W=%s C=%s L=%d O=%d R=%s B=%s X=%s%s%s Y=%s+%s+%s", verifC20Join(fs, ";"), sel, verifC20Str(o.ForwardedFor),
+		verifC20Str(o.Count), o.Limit, o.Offset, verifC20Join(o.Order, "+"), b, bit(o.IncludeTrash), bit(o.IncludeOldVersions), bit(o.Distinct),
+		dash(strings.Join(wh, ",")), dash(o.Include), dash(o.ClusterID))
 }
 
 // does a held object match all uuid filters of the request (other filters are ignored)
@@ -501,7 +514,14 @@ func verifC20Case(line string, overrun chan string) (out string) {
 	if len(op) == 7 {
 		op = append(op, "000")
 	}
-	if len(op) != 8 || len(op[7]) != 3 || strings.Trim(op[7], "01") != "" {
+	if len(op) == 8 {
+		op = append(op, "-+-+-")
+	}
+	if len(op) != 9 || len(op[7]) != 3 || strings.Trim(op[7], "01") != "" {
+		return "bad-op"
+	}
+	extra := strings.Split(op[8], "+")
+	if len(extra) != 3 {
 		return "bad-op"
 	}
 	unstr := func(s string) string {
@@ -513,6 +533,19 @@ func verifC20Case(line string, overrun chan string) (out string) {
 	var opts arvados.ListOptions
 	opts.IncludeTrash, opts.IncludeOldVersions, opts.Distinct = op[7][0] == '1', op[7][1] == '1', op[7][2] == '1'
 	opts.Count = unstr(op[0])
+	if extra[0] != "-" {
+		kv := strings.SplitN(extra[0], "=", 2)
+		if len(kv) != 2 {
+			return "bad-op"
+		}
+		opts.Where = map[string]interface{}{kv[0]: kv[1]}
+	}
+	if extra[1] != "-" {
+		opts.Include = extra[1]
+	}
+	if extra[2] != "-" {
+		opts.ClusterID = extra[2]
+	}
 	if opts.Limit, err = strconv.ParseInt(op[1], 10, 64); err != nil {
 		return "bad-op"
 	}
